@@ -1,4 +1,5 @@
-(** Model of src/epd1in02/mod.rs — STUB, not yet transcribed. *)
+(** Model of src/epd1in02/mod.rs (UC8175, QuickRefresh).
+    Fields: is_turned_on -> is_on, refresh_mode -> refresh. *)
 From Coq Require Import List NArith Bool.
 From EPD Require Import Iface Ops Drv.Luts.
 Import ListNotations.
@@ -8,11 +9,202 @@ Open Scope m_scope.
 Module Epd1in02.
 Definition WIDTH : N := 80.
 Definition HEIGHT : N := 128.
+Definition IS_BUSY_LOW := true.
+Definition NUMBER_OF_BYTES : N := WIDTH * HEIGHT / 8.
 
-Definition init : M unit := ret tt.
+(** Color::get_byte_value and u8 [!] *)
+Definition get_byte_value (c : N) : N := if c =? cWhite then 0xff else 0x00.
+Definition not8 (b : N) : N := 255 - u8 b.
 
-Definition exec (k : N) (o : op) : option (M rval) := None.
+(** crate::buffer_len (usize arithmetic; cannot overflow for u32 inputs on a 64-bit target) *)
+Definition buffer_len (w h : N) : N := (w + 7) / 8 * h.
+
+Definition wait_until_idle : M unit := wait_idle IS_BUSY_LOW.
+
+(** thin wrappers of the inherent impl *)
+Definition command (c : N) : M unit := cmd c.
+Definition send_data (l : list N) : M unit := data l.
+
+Definition send_resolution : M unit :=
+  let w := WIDTH in
+  let h := HEIGHT in
+  command 0x61 ;;
+  send_data [u8 h] ;;
+  send_data [u8 w].
+
+Definition set_lut (r : option N) : M unit :=
+  match r with
+  | None => ret tt
+  | Some v =>
+      let white_lut := if v =? 0 then epd1in02_LUT_FULL_UPDATE_WHITE else epd1in02_LUT_PARTIAL_UPDATE_WHITE in
+      let black_lut := if v =? 0 then epd1in02_LUT_FULL_UPDATE_BLACK else epd1in02_LUT_PARTIAL_UPDATE_BLACK in
+      cmd_with_data 0x23 white_lut ;;
+      cmd_with_data 0x24 black_lut
+  end.
+
+Definition turn_on_if_turned_off : M unit :=
+  s <- get ;;
+  when_ (negb (is_on s))
+    (command 0x04 ;;
+     wait_until_idle ;;
+     modify (set_on true)).
+
+Definition turn_off : M unit :=
+  command 0x02 ;;
+  wait_until_idle ;;
+  modify (set_on false).
+
+Definition set_full_mode : M unit :=
+  s <- get ;;
+  when_ (negb (refresh s =? 0))
+    (command 0x92 ;;
+     set_lut (Some 0) ;;
+     modify (set_refresh 0)).
+
+Definition set_partial_mode : M unit :=
+  s <- get ;;
+  when_ (negb (refresh s =? 1))
+    (command 0x91 ;;
+     set_lut (Some 1) ;;
+     modify (set_refresh 1)).
+
+(** [x + width <= WIDTH && y + height <= HEIGHT && x % 8 == 0 && width % 8 == 0]: short-circuit,
+    checked additions *)
+Definition is_window_size_ok (x y w h : N) : M bool :=
+  xw <- add32 x w ;;
+  if xw <=? WIDTH then
+    yh <- add32 y h ;;
+    ret ((yh <=? HEIGHT) && (x mod 8 =? 0) && (w mod 8 =? 0))%bool
+  else ret false.
+
+Definition is_buffer_size_ok (len w h : N) : bool := buffer_len w h =? len.
+
+Definition set_partial_window (x y w h : N) : M unit :=
+  ok <- is_window_size_ok x y w h ;;
+  (if ok then ret tt else panic) ;;
+  (* the array literal is built before the call *)
+  a <- add32 x w ;;
+  xe <- sub32 a 1 ;;
+  b <- add32 y h ;;
+  ye <- sub32 b 1 ;;
+  cmd_with_data 0x90 [u8 x; u8 xe; u8 y; u8 ye; 0x00].
+
+Definition init : M unit :=
+  reset 20000 2000 ;;
+  cmd_with_data 0x00 [0x6F] ;;
+  cmd_with_data 0x01 [0x03; 0x00; 0x2b; 0x2b] ;;
+  cmd_with_data 0x06 [0x3F] ;;
+  cmd_with_data 0x2A [0x00; 0x00] ;;
+  cmd_with_data 0x30 [0x17] ;;
+  s <- get ;;
+  let value := if bg s =? cBlack then 0x57 else 0x97 in
+  cmd_with_data 0x50 [value] ;;
+  cmd_with_data 0x60 [0x22] ;;
+  send_resolution ;;
+  cmd_with_data 0x82 [0x12] ;;
+  cmd_with_data 0xE3 [0x33] ;;
+  s <- get ;;
+  set_lut (Some (refresh s)) ;;
+  wait_until_idle.
+
+Definition sleep : M unit :=
+  wait_until_idle ;;
+  turn_off ;;
+  cmd_with_data 0x07 [0xA5] ;;
+  modify (set_refresh 0).
+
+Definition update_frame (k len : N) : M unit :=
+  wait_until_idle ;;
+  set_full_mode ;;
+  s <- get ;;
+  let color_value := get_byte_value (bg s) in
+  command 0x10 ;;
+  data_x_times color_value NUMBER_OF_BYTES ;;
+  cmd_with_data_e 0x13 (DArg k 0 0 len).
+
+Definition update_partial_frame : M unit := panic.   (* unimplemented!() *)
+
+Definition display_frame : M unit :=
+  wait_until_idle ;;
+  turn_on_if_turned_off ;;
+  command 0x12 ;;
+  wait_until_idle.
+
+Definition update_and_display_frame (k len : N) : M unit :=
+  update_frame k len ;;
+  display_frame.
+
+Definition clear_frame : M unit :=
+  wait_until_idle ;;
+  set_full_mode ;;
+  s <- get ;;
+  let color_value := get_byte_value (bg s) in
+  command 0x10 ;;
+  data_x_times (not8 color_value) NUMBER_OF_BYTES ;;
+  command 0x13 ;;
+  data_x_times color_value NUMBER_OF_BYTES.
+
+(** QuickRefresh *)
+Definition update_old_frame (k len : N) : M unit :=
+  set_partial_mode ;;
+  set_partial_window 0 0 WIDTH HEIGHT ;;
+  cmd_with_data_e 0x10 (DArg k 0 0 len).
+
+Definition update_new_frame (k len : N) : M unit :=
+  cmd_with_data_e 0x13 (DArg k 0 0 len).
+
+Definition display_new_frame : M unit := panic.              (* unimplemented!() *)
+Definition update_and_display_new_frame : M unit := panic.   (* unimplemented!() *)
+
+Definition update_partial_old_frame (k len x y w h : N) : M unit :=
+  (if is_buffer_size_ok len w h then ret tt else panic) ;;
+  set_partial_mode ;;
+  set_partial_window x y w h ;;
+  cmd_with_data_e 0x10 (DArg k 0 0 len).
+
+Definition update_partial_new_frame (k len x y w h : N) : M unit :=
+  (if is_buffer_size_ok len w h then ret tt else panic) ;;
+  cmd_with_data_e 0x13 (DArg k 0 0 len).
+
+Definition clear_partial_frame (x y w h : N) : M unit :=
+  wait_until_idle ;;
+  set_full_mode ;;
+  command 0x91 ;;
+  set_partial_window x y w h ;;
+  s <- get ;;
+  let color_value := get_byte_value (bg s) in
+  let number_of_bytes := buffer_len w h mod u32max in   (* as u32 *)
+  command 0x10 ;;
+  data_x_times (not8 color_value) number_of_bytes ;;
+  command 0x13 ;;
+  data_x_times color_value number_of_bytes ;;
+  command 0x92.
+
+Definition exec (k : N) (o : op) : option (M rval) :=
+  match o with
+  | OSleep => unit_ sleep
+  | OWakeUp => unit_ init
+  | OSetBg c => unit_ (modify (set_bg c))
+  | OGetBg => Some (s <- get ;; ret (RColor (bg s)))
+  | OWidth => Some (ret (RNum WIDTH))
+  | OHeight => Some (ret (RNum HEIGHT))
+  | OUpdateFrame len => unit_ (update_frame k len)
+  | OUpdatePartial len x y w h => unit_ update_partial_frame
+  | ODisplay => unit_ display_frame
+  | OUpdateAndDisplay len => unit_ (update_and_display_frame k len)
+  | OClear => unit_ clear_frame
+  | OSetLut r => unit_ (set_lut r)
+  | OWaitIdle => unit_ wait_until_idle
+  | OUpdateOld len => unit_ (update_old_frame k len)
+  | OUpdateNew len => unit_ (update_new_frame k len)
+  | ODisplayNew => unit_ display_new_frame
+  | OUpdateAndDisplayNew len => unit_ update_and_display_new_frame
+  | OUpdatePartialOld len x y w h => unit_ (update_partial_old_frame k len x y w h)
+  | OUpdatePartialNew len x y w h => unit_ (update_partial_new_frame k len x y w h)
+  | OClearPartial x y w h => unit_ (clear_partial_frame x y w h)
+  | _ => None
+  end.
 
 Definition drv (ft : feat) : driver :=
-  mkDriver WIDTH HEIGHT true d0 init exec.
+  mkDriver WIDTH HEIGHT true (mkD cWhite 0 false false 0 None) init exec.
 End Epd1in02.
